@@ -650,7 +650,7 @@ func (r *Run) Finish() {
 		"property_id": r.ID, "tier": r.Tier, "seed": r.Seed, "level": r.Level, "coverage": cov,
 		"assumptions": r.Assume, "wall_s": time.Since(r.start).Seconds(), "violations": r.violations,
 	}
-	if r.only == "" {
+	if r.only == "" && os.Getenv("VERIF_NO_EVIDENCE") == "" {
 		b, _ := json.MarshalIndent(doc, "", " ")
 		os.MkdirAll(filepath.Join(Root, "evidence"), 0o755)
 		if err := os.WriteFile(filepath.Join(Root, "evidence", r.ID+".json"), append(b, '\n'), 0o644); err != nil {
